@@ -801,6 +801,17 @@ def gen_struct(rng, n):
     return out
 
 
+def gen_nestedfmt():
+    """formatting elements nested two and three deep inside a text tag, a word changed in the innermost / middle / outer one"""
+    base = '<doc><p>one <b>two <i>three <u>deep four</u> five</i> six</b> seven</p><p>x</p></doc>'
+    out = []
+    for old_, new_ in (("three", "changed"), ("deep", "deeper"), ("two", "2"), ("six", ""), ("seven", "seven eight"), ("one ", "")):
+        for fmt in (["b", "i", "u"], ["b", "i"], ["i", "u"]):
+            out.append({"kind": "texttags", "left": base, "right": base.replace(old_, new_, 1),
+                        "cfg": {"normalize": WS_NONE, "replace": False, "tt": ["p"], "fmt": fmt}, "opts": {}, "late": False})
+    return out
+
+
 def gen_defaultns():
     """both roots declare the SAME default namespace (and maybe a prefixed one): inserts, moves, renames, text updates"""
     pairs = [
@@ -1267,6 +1278,7 @@ def gen_inputs(run, rng):
     cases += gen_perms()
     cases += gen_emptyvals()
     cases += gen_defaultns()
+    cases += gen_nestedfmt()
     cases += gen_wsonly(rng, 40 if quick else 300)
     cases += gen_latectr(rng, 80 if quick else 800)
     cases += gen_sibshift(rng, 40 if quick else 300)
